@@ -1,10 +1,23 @@
 (* Properties_C07.v — property C07: experience and learned models mirror the recorded history.
-   Only statements, each closed by [exact <lemma>] and followed by Print Assumptions. *)
+   Only statements, each closed by [exact <lemma>] and followed by Print Assumptions.
+
+   Vocabulary (C07/Model.v, C07/Spec.v):
+     run fixed S A pre toSync post   experience built by [pre]; MaximumLikelihoodModel constructed then
+                                     with flag [toSync]; then [post] (records, resets and the three syncs).
+                                     [fixed = true] is the constructor repaired by
+                                     fixes/C07-mlmodel-uninit.patch (zero-fill before sync()); with
+                                     [toSync = false] both constructors coincide, hence the hypothesis
+                                     [fixed || negb toSync = true].
+     hist_of ops                     the records since the last reset (raw history)
+     count / countsum / mean / m2 / freq   statistics of the raw history
+     track / precond_ok              the boolean tracker of the documented incremental-sync precondition
+     row_is m a s S f                row (s,a) of the model holds finite cells equal (==) to f 0 .. f (S-1) *)
 From Coq Require Import List Arith ZArith QArith Bool.
-From AIT Require Import Base.Qx C07.Model C07.Spec C07.ProofsExp.
+From AIT Require Import Base.Qx C07.Model C07.Spec C07.ProofsExp C07.ProofsMl C07.ProofsInv C07.ProofsTop C07.ProofsExtra.
 Import ListNotations.
 Local Open Scope Q_scope.
 
+(* ---- core 1: Welford ------------------------------------------------------------------------ *)
 (* After ANY in-range sequence of record / reset / sync ops, the experience reports exactly the
    visit counts, the mean and the sum of squared deviations of the rewards recorded since the last
    reset, per (s,a), and the number of records as timesteps. *)
@@ -24,3 +37,164 @@ Example ex_welford_nonvacuous :
   ops_in_range 2 2 ops = true /\ NN (exp_after 2 2 ops) 0 1 = 3%nat /\
   Rw (exp_after 2 2 ops) 0 1 == 11 # 6 /\ V (exp_after 2 2 ops) 0 1 1 = 2%nat.
 Proof. cbv zeta. repeat split; vm_compute; reflexivity. Qed.
+
+(* the same for Bandit::Experience *)
+Theorem bandit_welford_exact : forall A ops, forallb (bop_in_range A) ops = true ->
+  let b := bexp_after A ops in let h := bhist_of ops in
+  b_ts b = length h /\
+  forall a, (a < A)%nat ->
+    nth a (b_vis b) 0%nat = length (arm_rewards h a) /\
+    nth a (b_avg b) 0 == mean (arm_rewards h a) /\
+    nth a (b_m2 b) 0 == m2 (arm_rewards h a).
+Proof. exact bandit_welford_exact_lemma. Qed.
+Print Assumptions bandit_welford_exact.
+
+Example ex_bandit_nonvacuous :
+  let ops := [BRecord 1 (1#2); BRecord 1 (-3#1); BReset; BRecord 0 2; BRecord 0 4] in
+  forallb (bop_in_range 2) ops = true /\ nth 0 (b_avg (bexp_after 2 ops)) 0 == 3 /\ nth 0 (b_m2 (bexp_after 2 ops)) 0 == 2.
+Proof. cbv zeta. repeat split; vm_compute; reflexivity. Qed.
+
+(* setVisitsTable: the sums are the row sums of the table that was set *)
+Theorem setVisits_sums : forall e v s a, (s < eS e)%nat -> (a < eA e)%nat ->
+  NN (exp_setVisits e v) s a = nsum (nth s (nth a v []) []) /\
+  (forall s1, V (exp_setVisits e v) s a s1 = nth s1 (nth s (nth a v []) []) 0%nat).
+Proof. exact ProofsExp.setVisits_sums. Qed.
+Print Assumptions setVisits_sums.
+
+(* the executable (Qred-normalised) statistics used by the driver's oracle equal the spec *)
+Theorem oracle_twins_sound : forall l h s a s1,
+  mean_x l == mean l /\ m2_x l == m2 l /\ freq_x h s a s1 == freq h s a s1.
+Proof. intros; split; [apply mean_x_eq| split; [apply m2_x_eq| apply freq_x_eq]]. Qed.
+Print Assumptions oracle_twins_sound.
+
+(* ---- core 2: full sync ------------------------------------------------------------------------ *)
+(* After sync(s,a), a pair with data holds exactly the empirical frequencies and the empirical mean —
+   whatever happened before (no precondition at all). *)
+Theorem full_sync_is_empirical : forall fixed S A pre flag post s a, (fixed || negb flag = true) ->
+  ops_in_range S A pre = true -> ops_in_range S A post = true -> (s < S)%nat -> (a < A)%nat ->
+  let m := snd (run fixed S A pre flag (post ++ [OSync2 s a])) in
+  let h := hist_of (pre ++ post) in
+  (0 < countsum h s a)%nat ->
+  row_is m a s S (fun i => freq h s a i) /\ Rm m s a == mean (rewards_of h s a).
+Proof. exact full_sync2_lemma. Qed.
+Print Assumptions full_sync_is_empirical.
+
+(* … and after sync(), every pair with data does. *)
+Theorem full_sync_all_is_empirical : forall fixed S A pre flag post s a, (fixed || negb flag = true) ->
+  ops_in_range S A pre = true -> ops_in_range S A post = true -> (s < S)%nat -> (a < A)%nat ->
+  let m := snd (run fixed S A pre flag (post ++ [OSyncAll])) in
+  let h := hist_of (pre ++ post) in
+  (0 < countsum h s a)%nat ->
+  row_is m a s S (fun i => freq h s a i) /\ Rm m s a == mean (rewards_of h s a).
+Proof. exact full_sync_all_lemma. Qed.
+Print Assumptions full_sync_all_is_empirical.
+
+Example ex_full_sync_nonvacuous :
+  let pre := [ORecord 0 0 1 2; ORecord 0 0 1 4; ORecord 0 0 0 0] in
+  ops_in_range 2 1 pre = true /\ countsum (hist_of (pre ++ [])) 0 0 = 3%nat /\
+  T (snd (run true 2 1 pre false [OSync2 0 0])) 0 0 1 = XFin (2 # 3) /\
+  Rm (snd (run true 2 1 pre false [OSync2 0 0])) 0 0 == 2.
+Proof. cbv zeta. repeat split; vm_compute; reflexivity. Qed.
+
+(* ---- core 3: incremental sync ----------------------------------------------------------------- *)
+(* If the op sequence respects the documented precondition of sync(s,a,s1) (boolean [precond_ok]:
+   every incremental sync was preceded by exactly one new record (s,a,s1) since that row was last in
+   step with the experience — untouched identity row or empirical row —, or fell on the forced
+   resync visitSum % 10000 == 0), then after a final sync(s,a,s1) the row is the empirical
+   distribution n_i/N and the reward the empirical mean.  Covers the first-visit special case and the
+   forced resync; no bound on the history length. *)
+Theorem incremental_sync_invariant : forall fixed S A pre flag post s a s1, (fixed || negb flag = true) ->
+  ops_in_range S A pre = true -> ops_in_range S A post = true -> (s < S)%nat -> (a < A)%nat -> (s1 < S)%nat ->
+  precond_ok S A pre flag (post ++ [OSync3 s a s1]) = true ->
+  let m := snd (run fixed S A pre flag (post ++ [OSync3 s a s1])) in
+  let h := hist_of (pre ++ post) in
+  (0 < countsum h s a)%nat ->
+  row_is m a s S (fun i => freq h s a i) /\ Rm m s a == mean (rewards_of h s a).
+Proof. exact incremental_sync_lemma. Qed.
+Print Assumptions incremental_sync_invariant.
+
+(* the single-step algebra behind it: row = (n - e_{s1})/(N-1)  ==>  row = n/N *)
+Theorem incremental_sync_step : forall e m s a s1, ml_wf (eS e) (eA e) m ->
+  (s < eS e)%nat -> (a < eA e)%nat -> (s1 < eS e)%nat ->
+  (NN e s a mod resync_period =? 0)%nat = false -> (2 <= NN e s a)%nat ->
+  row_is m a s (eS e) (fun i => (inj (V e s a i) - delta i s1) / inj (NN e s a - 1)) ->
+  row_is (ml_sync3 e m s a s1) a s (eS e) (fun i => inj (V e s a i) / inj (NN e s a)) /\
+  Rm (ml_sync3 e m s a s1) s a = Rw e s a.
+Proof. exact sync3_incr. Qed.
+Print Assumptions incremental_sync_step.
+
+Example ex_incremental_nonvacuous :
+  let post := [ORecord 0 0 1 2; OSync3 0 0 1; ORecord 0 0 0 4; OSync3 0 0 0; ORecord 0 0 1 (-1#2)] in
+  ops_in_range 2 1 post = true /\ precond_ok 2 1 [] true (post ++ [OSync3 0 0 1]) = true /\
+  countsum (hist_of ([] ++ post)) 0 0 = 3%nat /\
+  T (snd (run true 2 1 [] true (post ++ [OSync3 0 0 1]))) 0 0 1 = XFin (2 # 3).
+Proof. cbv zeta. repeat split; vm_compute; reflexivity. Qed.
+
+(* the precondition matters: one record skipped and the incremental form is no longer empirical *)
+Example ex_incremental_needs_precondition :
+  let post := [ORecord 0 0 1 2; OSync3 0 0 1; ORecord 0 0 0 4; ORecord 0 0 0 4] in
+  precond_ok 2 1 [] false (post ++ [OSync3 0 0 0]) = false /\
+  T (snd (run true 2 1 [] false (post ++ [OSync3 0 0 0]))) 0 0 0 = XFin (1 # 2) /\
+  freq (hist_of post) 0 0 0 == 2 # 3.
+Proof. cbv zeta. repeat split; vm_compute; reflexivity. Qed.
+
+(* ---- all interleavings at once ---------------------------------------------------------------- *)
+(* For EVERY op sequence (no precondition): each row the tracker classifies RSynced is the empirical
+   distribution, with the empirical mean as reward.  (An off-precondition incremental sync only
+   declassifies its own row, until the next full sync of that pair.) *)
+Theorem ml_model_is_empirical : forall fixed S A pre flag post, (fixed || negb flag = true) ->
+  ops_in_range S A pre = true -> ops_in_range S A post = true ->
+  let m := snd (run fixed S A pre flag post) in
+  let h := hist_of (pre ++ post) in
+  forall s a, (s < S)%nat -> (a < A)%nat -> tSt (track S A pre flag post) s a = RSynced ->
+    (0 < countsum h s a)%nat /\ row_is m a s S (fun i => freq h s a i) /\ Rm m s a == mean (rewards_of h s a).
+Proof. exact ml_model_is_empirical_lemma. Qed.
+Print Assumptions ml_model_is_empirical.
+
+(* ---- core 4: unvisited pairs ------------------------------------------------------------------ *)
+(* A pair never recorded anywhere in the sequence keeps the fixed default: self-loop, zero reward —
+   for the repaired constructor (either flag) and for the unrepaired one with sync = false. *)
+Theorem unvisited_default : forall fixed S A pre flag post s a, (fixed || negb flag = true) ->
+  ops_in_range S A pre = true -> ops_in_range S A post = true -> (s < S)%nat -> (a < A)%nat ->
+  never_visited (pre ++ post) s a = true ->
+  let m := snd (run fixed S A pre flag post) in
+  row_is m a s S (fun i => delta i s) /\ Rm m s a = 0.
+Proof. exact unvisited_default_lemma. Qed.
+Print Assumptions unvisited_default.
+
+Example ex_unvisited_nonvacuous :
+  never_visited ([ORecord 0 0 1 1] ++ [OSyncAll; OSync3 1 0 0]) 1 0 = true /\
+  T (snd (run true 2 1 [ORecord 0 0 1 1] true [OSyncAll; OSync3 1 0 0])) 0 1 0 = XFin 0 /\
+  T (snd (run true 2 1 [ORecord 0 0 1 1] true [OSyncAll; OSync3 1 0 0])) 0 1 1 = XFin 1.
+Proof. repeat split; vm_compute; reflexivity. Qed.
+
+(* The constructor as it stands in /repo (fixed = false) with sync = true violates it: the
+   off-diagonal cells of a never-visited row are never written (DESIGN §6; reproduced on the real
+   code, see known_findings.d/C07.json and fixes/C07-mlmodel-uninit.patch). *)
+Theorem unvisited_default_refuted :
+  exists S A pre s a i, ops_in_range S A pre = true /\ never_visited pre s a = true /\ (i < S)%nat /\
+    T (snd (run false S A pre true [])) a s i = XIndet.
+Proof. exact unvisited_default_refuted_lemma. Qed.
+Print Assumptions unvisited_default_refuted.
+
+(* ---- stretch ---------------------------------------------------------------------------------- *)
+(* Thompson models: any positive gamma draws divided by their sum are a probability distribution *)
+Theorem thompson_rows_valid : forall g, g <> [] -> Forall (fun x => 0 < x) g ->
+  is_dist (thompson_row g) /\ length (thompson_row g) = length g.
+Proof. exact thompson_rows_valid_lemma. Qed.
+Print Assumptions thompson_rows_valid.
+
+Example ex_thompson_nonvacuous : Forall2 Qeq (thompson_row [1#2; 3; 1#4]) [2#15; 4#5; 1#15] /\
+  Forall (fun x => 0 < x) [1#2; 3; 1#4].
+Proof. split; repeat constructor. Qed.
+
+(* SparseMaximumLikelihoodModel::sync(s,a), non-Eigen branch, as it stands: first sync with
+   visitSum = 2 keeps the identity entry — the row is (1, 1/2, 1/2); repaired loop gives 0 there
+   (fixes/C07-sparse-noneigen-stale.patch). *)
+Theorem sparse_noneigen_stale_refuted :
+  let e := exp_after 3 1 [ORecord 0 0 1 1; ORecord 0 0 2 1] in
+  let m := sml_sync2 false false e (sml_ctor false false (exp_new 3 1) false) 0 0 in
+  Ts m 0 0 0 == 1 /\ ~ Ts m 0 0 0 == freq [(0%nat, 0%nat, 1%nat, 1); (0%nat, 0%nat, 2%nat, 1)] 0 0 0 /\
+  (let m' := sml_sync2 true false e (sml_ctor true false (exp_new 3 1) false) 0 0 in Ts m' 0 0 0 == 0).
+Proof. exact sparse_noneigen_stale_refuted_lemma. Qed.
+Print Assumptions sparse_noneigen_stale_refuted.
